@@ -264,6 +264,8 @@ def sdc_case(rep, kind, M, nt, qt, qd, with_tau, cu, n, ksweep):
         if mass is not None:
             c.add(mass[0].t > 0)
         sp.DENOMS.clear()
+        sp.AXIOMS.clear()
+        sp.SOLVE['mode'] = 'axiom' if n >= 2 else 'closed'
         pc, pp = problem_for(kind, coef, mass)
         L = cm.make_level(pc, pp, SWEEPERS[kind], sweeper_params(kind, M, nt, qt, qd, cu), SymReal(dtv))
         V = cm.fill_level(L, with_tau, n)
@@ -276,7 +278,8 @@ def sdc_case(rep, kind, M, nt, qt, qd, with_tau, cu, n, ksweep):
         L.sweep.compute_end_point()
         uend = sp.terms(L.uend)
         copy_mode = L.sweep.coll.right_is_node and not L.sweep.params.do_coll_update
-        return dict(V=V, mats=mats, Unew=Unew, integ=integ, uend=uend, den=list(sp.DENOMS), copy=copy_mode,
+        sp.SOLVE['mode'] = 'closed'
+        return dict(V=V, mats=mats, Unew=Unew, integ=integ, uend=uend, den=list(sp.DENOMS), copy=copy_mode, axioms=list(sp.AXIOMS),
                     weights=np.array(L.sweep.coll.weights, dtype=float))
 
     try:
@@ -302,7 +305,7 @@ def sdc_case(rep, kind, M, nt, qt, qd, with_tau, cu, n, ksweep):
             rep.extra['nan_tables_skipped'] = rep.extra.get('nan_tables_skipped', 0) + 1
             return
         zc = {k: [[x for x in row] for row in v] for k, v in coef.items()}
-        assumptions = list(p.assume) + list(p.pc) + [d != 0 for d in r['den']]
+        assumptions = list(p.assume) + list(p.pc) + [d != 0 for d in r['den']] + r['axioms']
         eqs = ss.spec_update(kind, mats, zc, dtv, V['u0'], V['U'], r['Unew'], V['tau'], mass)
         spec_int = ss.spec_integrate(kind, mats['Q'], zc, dtv, r['Unew'])
         spec_end = ss.spec_endpoint(kind, r['weights'], zc, dtv, V['u0'], r['Unew'], V['tau'][-1] if with_tau else None, r['copy'])
@@ -333,7 +336,7 @@ def sdc_case(rep, kind, M, nt, qt, qd, with_tau, cu, n, ksweep):
             res, _ = prove(z3.And(bad), assumptions, timeout_ms=60000, name=f'{name}:mutated-spec', kind='vacuity')
             rep.vac(f'{name}:mutated-spec-refuted', res, 'sat')
         # translator validation: same real code on floats vs. evaluation of the terms
-        if len(paths) == 1 or p is paths[0]:
+        if (len(paths) == 1 or p is paths[0]) and not r['axioms']:
             rng = random.Random(hash(name) % 100000 + rep.seed)
             for _ in range(2 if rep.tier == 'quick' else 3):
                 env = cm.random_env(allv, rng)
